@@ -303,6 +303,21 @@ package bsonkit
 //@   modifies *doc
 //@   ensures (err == nil) == (value != spec.VMissing && spec.putOK(old(*doc), path, value, prepend))
 //@   ensures imp(err == nil, *doc == spec.putPath(old(*doc), path, value, prepend) && result0 == old(spec.getPath(*doc, path)))
+// Pop removes the first or the last element of the array at the path and returns
+// it; a missing path or an empty array is a no-op that returns Missing.
+//@ func Pop
+//@   tags C11
+//@   uses access
+//@   requires doc != nil && spec.wfVal(spec.VDoc(*doc))
+//@   modifies *doc
+//@   let cur = old(spec.getPath(*doc, path))
+//@   let left = spec.getPath(*doc, path)
+//@   ensures [C11 name=missing-or-empty-is-noop] imp(cur == spec.VMissing || (is(cur, VArr) && len(spec.arr(cur)) == 0), err == nil && result0 == spec.VMissing && *doc == old(*doc))
+//@   ensures [C11 name=not-an-array-rejected] imp(cur != spec.VMissing && !is(cur, VArr), err != nil && *doc == old(*doc))
+//@   ensures [C11 name=returns-the-end] imp(err == nil && is(cur, VArr) && len(spec.arr(cur)) > 0, result0 == spec.arr(cur)[ite(last, len(spec.arr(cur)) - 1, 0)])
+//@   ensures [C11 name=rest-stays] imp(err == nil && is(cur, VArr) && len(spec.arr(cur)) > 0, is(left, VArr) && len(spec.arr(left)) == len(spec.arr(cur)) - 1 &&
+//@     forall(k, 0, len(spec.arr(left)), spec.arr(left)[k] == spec.arr(cur)[k + ite(last, 0, 1)]))
+//@   ensures [C11 name=written-at-the-path] imp(err == nil && is(cur, VArr) && len(spec.arr(cur)) > 0, *doc == spec.putPath(old(*doc), path, left, false))
 //@ func IndexedPath
 //@   trusted
 //@   pure
